@@ -64,12 +64,76 @@ def edge_dominates(F, path, switch_bb, target_bb, bb):
     return P[target_bb] == {switch_bb}
 
 
+def predicate_implies(F, q, root_pred, want_true=True, depth=0):
+    """q is a local function returning bool. Does `q(..) == true` imply that a condition whose provenance satisfies root_pred holds
+    (want_true) / does not hold (not want_true)?  True when some switch inside q has such an operand and the corresponding edge
+    dominates every block in which q's result can become true (a conjunction `a && b && c` extracted into a predicate method), or
+    when the returned value itself is such a condition."""
+    if q not in F.fn_bodies or depth > 2 or F.bodies[q]['mir']['locals'][0] != 'bool':
+        return False
+    blocks = F.blocks(q)
+    ret_roots = F.trace(q, {'copy': {'l': 0, 'p': []}})
+    if want_true and root_pred(ret_roots) and sum(1 for r in ret_roots if r[0] == 'unop' and r[1] == 'Not') % 2 == 0 \
+            and not any(r[0] == 'const' and 'true' in str(r[1]) for r in ret_roots):
+        return True
+    # blocks where _0 is assigned something that may be true
+    may_true = []
+    for bi, blk in enumerate(blocks):
+        if blk['cleanup']:
+            continue
+        for st in blk['s']:
+            if st[0] == 'assign' and st[1]['l'] == 0 and not st[1]['p']:
+                if st[2][0] == 'use' and 'const' in st[2][1] and 'false' in st[2][1]['const'].get('repr', ''):
+                    continue
+                may_true.append(bi)
+        t = blk['t']
+        if t[0] == 'call' and t[1]['dest']['l'] == 0 and not t[1]['dest']['p']:
+            may_true.append(bi)
+    if not may_true:
+        return False
+    for (sb, op, arms, other) in switches(F, q):
+        roots = F.trace(q, op)
+        ok_here = root_pred(roots)
+        nested = False
+        if not ok_here:
+            for r in roots:
+                if r[0] == 'call':
+                    q2 = r[1] if r[1] in F.fn_bodies else (r[4].get('resolved') or '')
+                    if predicate_implies(F, q2, root_pred, want_true, depth + 1):
+                        nested = True
+        if not ok_here and not nested:
+            continue
+        neg = sum(1 for r in roots if r[0] == 'unop' and r[1] == 'Not') % 2 == 1
+        tt, ft = bool_edges(arms, other)
+        if nested:
+            tgt = ft if neg else tt
+        else:
+            tgt = (ft if neg else tt) if want_true else (tt if neg else ft)
+        if tgt is not None and all(edge_dominates(F, q, sb, tgt, mb) or tgt == mb for mb in may_true):
+            return True
+    return False
+
+
 def guarded_by(F, path, bb, root_pred, want_true=True):
     """is block bb control-dominated by an edge of a switch whose operand's provenance satisfies root_pred(roots)?
-    want_true: the edge on which the (un-negated) root condition holds. Returns (switch_bb, target) or None."""
+    want_true: the edge on which the (un-negated) root condition holds. Returns (switch_bb, target) or None.
+    A condition that has been extracted into a local predicate function (`if self.is_pending() {..}`) counts on the predicate's
+    true edge when predicate_implies() shows that its truth implies the condition."""
     for (sb, op, arms, other) in switches(F, path):
         roots = F.trace(path, op)
         if not root_pred(roots):
+            via_pred = False
+            for r in roots:
+                if r[0] == 'call':
+                    q = r[1] if r[1] in F.fn_bodies else (r[4].get('resolved') or '')
+                    if q and q != path and predicate_implies(F, q, root_pred, want_true):
+                        via_pred = True
+            if via_pred:
+                neg = sum(1 for r in roots if r[0] == 'unop' and r[1] == 'Not') % 2 == 1
+                tt, ft = bool_edges(arms, other)
+                tgt = ft if neg else tt
+                if edge_dominates(F, path, sb, tgt, bb):
+                    return (sb, tgt)
             continue
         neg = sum(1 for r in roots if r[0] == 'unop' and r[1] == 'Not') % 2 == 1
         tt, ft = bool_edges(arms, other)
